@@ -34,4 +34,19 @@ func init() {
 	setProp("C10", "DESIGN.md §4 C10",
 		"Decides (whole program, all paths): nothing reachable from a geometry, sequence, envelope or R-tree passed to an operation is written (stores, copy, in-place sort/heap, map update, in-place append), with mutation of plain slice parameters summarised and checked at every call site; no package-level state is written after init; no goroutines, clocks, random sources or locks are used. A read-only heap cannot race.",
 		"the Go memory model beyond 'shared memory is never written'; purity of third-party callees; that sort comparators are total orders; bit-identical output ordering (map-iteration order rule not yet included).")
+	setProp("C01", "DESIGN.md §4 C01",
+		"Decides: the empty-operand decision table of the four binary set operations (each cell is the full overlay with the right include function and operand order, or the algebraically correct canonical shortcut); the truth tables of the include functions; UnaryUnion's definition; that the overlay result is validated on every success path and only reviewed functions reach the overlay internals.",
+		"geometric correctness of the arrangement, labels and extracted rings; area/length identities.")
+	setProp("C16", "DESIGN.md §4 C16",
+		"Decides: every decoder routine types its result by the announced coordinates type (no bare zero literals, no constructors over possibly-empty lists); index-filled geometry lists are assigned on every loop path; set-operation shortcuts return canonical XY results.",
+		"that each vertex's Z/M travels with its XY through every operation (value-level).")
+	setProp("C04", "DESIGN.md §4 C04",
+		"Decides: coordinate-type propagation onto empty geometries and empty members in the WKB parser (ctype-flow).",
+		"bit-exact round trip of payloads; byte-order symmetry (not yet covered).")
+	setProp("C06", "DESIGN.md §4 C06",
+		"Decides: coordinate-type propagation in the GeoJSON node-to-geometry conversion (an empty Point member cannot strip Z from its siblings).",
+		"RFC 7946 syntax of the output; value-level round trip.")
+	setProp("C12", "DESIGN.md §4 C12",
+		"Decides: the Envelope predicates and measures (Contains, Intersects, Covers, IsPoint/IsLine/IsRectangle, Width/Height/Area, Distance) equal their closed-interval definitions on every weak ordering of the ordinates and every emptiness combination.",
+		"that Envelope() of each geometry is the tightest box over its control points (fold rules not yet included); NaN behaviour.")
 }
